@@ -1,0 +1,20 @@
+// Copyright (c) The Thanos Community Authors.
+// Licensed under the Apache License 2.0.
+
+//go:build !verif
+
+package execution
+
+import (
+	"github.com/prometheus/prometheus/promql/parser"
+	"github.com/prometheus/prometheus/storage"
+
+	"github.com/thanos-community/promql-engine/execution/model"
+	engstore "github.com/thanos-community/promql-engine/execution/storage"
+	"github.com/thanos-community/promql-engine/query"
+)
+
+// verifIntercept is a no-op unless the engine is built with the `verif` tag.
+func verifIntercept(parser.Expr, *engstore.SelectorPool, *query.Options, storage.SelectHints) (model.VectorOperator, bool, error) {
+	return nil, false, nil
+}
